@@ -117,6 +117,29 @@ theorem ceemdLoop_prefix (Nx : List Sig → Sig → Sig) (thr : Rat) (cap : Opti
     · exact List.prefix_append _ _
     · exact List.IsPrefix.trans (List.prefix_append _ _) (ih _)
 
+/-- every column of the complete-ensemble loop has the input's length when the ensemble step preserves it -/
+theorem ceemdLoop_lengths (Nx : List Sig → Sig → Sig) (thr : Rat) (cap : Option Nat) (x : Sig)
+    (hN : ∀ cols p, p.length = x.length → (Nx cols p).length = x.length) :
+    ∀ (fuel : Nat) (cols : List Sig), (∀ c ∈ cols, c.length = x.length) →
+      ∀ c ∈ (ceemdLoop Nx thr cap x fuel cols).1, c.length = x.length := by
+  intro fuel
+  induction fuel with
+  | zero => intro cols hl; simpa [ceemdLoop] using hl
+  | succ fuel ih =>
+    intro cols hl
+    have hp : (Sig.sub x (Sig.vsum x.length cols)).length = x.length := resid_length x cols hl
+    have hl' : ∀ d ∈ cols ++ [Nx cols (Sig.sub x (Sig.vsum x.length cols))], d.length = x.length := by
+      intro d hd
+      simp only [List.mem_append, List.mem_singleton] at hd
+      rcases hd with hd | rfl
+      · exact hl d hd
+      · exact hN _ _ hp
+    unfold ceemdLoop
+    simp only []
+    split
+    · exact hl'
+    · exact ih _ hl'
+
 /-! ### second layer -/
 
 theorem padCols_length (n k : Nat) (cols : List Sig) : (padCols n k cols).length = k := by
